@@ -267,10 +267,29 @@ def fragment_correspondence(ctx: fw.Ctx):
         reqs.append(["roundtrip", sx])
         reqs.append(["pieces", sx])
         reqs.append(["flatten", sx])
+        reqs.append(["facts", sx])
     replies = ctx.driver.ask_many(reqs)
     bad = 0
+    hyp = {"inputs": 0, "orderOk": 0, "inlineCleanB": 0, "safe": 0, "spacing_nf": 0, "tokens": 0}
     for k, (origin, text, tree) in enumerate(texts):
-        got, pieces, flat = replies[3 * k], replies[3 * k + 1], replies[3 * k + 2]
+        got, pieces, flat, facts = replies[4 * k], replies[4 * k + 1], replies[4 * k + 2], replies[4 * k + 3]
+        if facts and facts[0] == "ok":
+            # the decidable hypotheses / conclusions of the fragment theorems on this input, evaluated by
+            # the compiled model: C01.frag_tokens_preserved and frag_safe have no exclusion, C18.frag_spacing_nf
+            # holds under inlineCleanB. An instance contradicting a theorem means the driver does not run
+            # the model the theorems are about.
+            o_ok, clean, safe, nf, tk = (x == "t" for x in facts[1:6])
+            hyp["inputs"] += 1
+            hyp["orderOk"] += o_ok
+            hyp["inlineCleanB"] += clean
+            hyp["safe"] += safe
+            hyp["spacing_nf"] += nf
+            hyp["tokens"] += tk
+            if not safe or not tk or (clean and not nf):
+                bad += 1
+                if bad <= 5:
+                    ctx.tie_break("theorem-instance", "the compiled model contradicts a fragment theorem on this input",
+                                  request={"text": text}, model=facts)
         if flat != ["ok", fw.hx(text)]:
             bad += 1
             if bad <= 5:
@@ -318,6 +337,7 @@ def fragment_correspondence(ctx: fw.Ctx):
             # property checks (C01 tokens / C03 comments) that judge it. Counted for the record.
             ctx.count("fragment_pieces_not_lexed_as_such")
     cov["disagreements"] = bad
+    cov["theorem_hypotheses"] = hyp
     ctx.count("fragment_corr_compared", cov["compared"])
     ctx.count("fragment_corr_disagreements", bad)
     ctx.extra["fragment"] = cov
@@ -331,6 +351,7 @@ def fragment_correspondence(ctx: fw.Ctx):
 FRAGMENT_PROBES = [
     ("Nima.C03.cex_comment_overtakes", "C03", "[ x\n /* b */ /* c */ y ]"),
     ("Nima.C03.cex_comment_overtakes", "C03", "x\n# a\n/* b */ /* c */\n"),
+    ("Nima.C18.cex_block_comment_after_opener", "C18", "{ /* c */ a = 1; }"),
 ]
 
 
